@@ -53,7 +53,11 @@ func crlIssuer() (*x509.Certificate, crypto.Signer) {
 // makeCRL mints a CRL with the given number; pad adds revoked entries to grow it.
 func makeCRL(number int64, nextUpdate time.Time, pad int, delta bool) *x509.RevocationList {
 	issuer, key := crlIssuer()
-	tmpl := &x509.RevocationList{Number: big.NewInt(number), ThisUpdate: time.Now().Add(-time.Hour), NextUpdate: nextUpdate}
+	this := time.Now().Add(-time.Hour)
+	if !nextUpdate.After(this.Add(time.Hour)) {
+		this = nextUpdate.Add(-24 * time.Hour)
+	}
+	tmpl := &x509.RevocationList{Number: big.NewInt(number), ThisUpdate: this, NextUpdate: nextUpdate}
 	for i := 0; i < pad; i++ {
 		tmpl.RevokedCertificateEntries = append(tmpl.RevokedCertificateEntries, x509.RevocationListEntry{SerialNumber: big.NewInt(int64(1000000 + i)), RevocationTime: time.Now().Add(-2 * time.Hour)})
 	}
